@@ -218,6 +218,17 @@ def paths(body: List[ast.stmt], loop_iters=(0, 1), fold: Optional[Callable] = No
                 e = evs + [Ev("case", case, st.subject)]
                 if isinstance(case.pattern, ast.MatchAs) and case.pattern.pattern is None and case.guard is None:
                     wildcard = True
+                # `case Cls():` without sub-patterns or guard is isinstance(subject, Cls): let the caller's fold decide it
+                if fold is not None and case.guard is None:
+                    pats = case.pattern.patterns if isinstance(case.pattern, ast.MatchOr) else [case.pattern]
+                    if all(isinstance(p_, ast.MatchClass) and not p_.patterns and not p_.kwd_patterns for p_ in pats):
+                        vals = [fold(ast.Call(func=ast.Name(id="isinstance", ctx=ast.Load()), args=[st.subject, p_.cls], keywords=[])) for p_ in pats]
+                        if any(v_ is True for v_ in vals):
+                            wildcard = True  # this case certainly matches: later cases and the fall-through are unreachable
+                            yield from seq(case.body, 0, e, conds)
+                            break
+                        if all(v_ is False for v_ in vals):
+                            continue
                 yield from seq(case.body, 0, e, conds)
             if not wildcard:
                 yield evs + [Ev("nocase", st)], "fall", conds
